@@ -4,6 +4,7 @@ Decided: R12.1 the result of every I/O-capable call is observed; R12.2 a path on
 in a success/data return (except the documented end-of-file mappings); R12.3 the close callback has one guarded call
 site and no library function closes a caller's FILE; R12.4 failure returns leave a consistent typestate (K5, with C03);
 R12.5 the byte count committed to the sync layer is the positive count the read callback returned."""
+import absint
 import cfg
 import os
 import k2
@@ -440,6 +441,146 @@ def _block_reaches(F, a, b):
     return False
 
 
+def r12_10(chk, P):
+    chk.rule('R12.10', 'a loop that keeps fetching packets ends when the fetch keeps failing: for every call of '
+             '_fetch_and_process_packet inside a loop of vorbisfile.c, each negative code the call can return -- the exact '
+             'outcome set of the K5 typestate summary for the handle states the enclosing function is entered with and the '
+             'constant arguments of the call -- is a code the loop leaves on (a test of the result that exits the loop or '
+             'returns: `r<0`, `r<=0`, `r==CODE`, `r<0 && r!=OV_HOLE`), or OV_HOLE (data was skipped: progress).  A persisting '
+             'read error that comes back under a code the loop does not look for makes the call spin for ever.  Assumed: '
+             'OV_EFAULT, the internal-logic-fault code, is not produced by I/O')
+    import typestate
+    import k5
+    K = typestate.scan(P)[0]
+    ent = {}
+    for mk in K.memo:
+        if isinstance(mk, tuple) and len(mk) == 3:
+            for (gi, en) in mk[1]:
+                ent.setdefault(mk[0], set()).add((gi, en))
+    G = P.need('_fetch_and_process_packet')
+    gk = P.key(G)
+    OV_HOLE, OV_EFAULT = -3, -129
+    n = 0
+    for F in P.functions():
+        if not F.file.endswith('vorbisfile.c'):
+            continue
+        loops = cfg.loops(F)
+        if not loops:
+            continue
+        for c in sorted(F.calls(G.name), key=lambda x: F.ex[x].get('loc') or [0, 0]):
+            inl = [h for h, body in loops.items() if F.pos[c][0] in body]
+            if not inl:
+                continue
+            body = set()
+            for h in inl:
+                body |= loops[h]
+            # the variable that receives the result (or the condition the call sits in)
+            rv = None
+            par = F.sparent.get(c)
+            while par is not None and F.ex[par]['k'] == 'cast':
+                par = F.sparent.get(par)
+            pn = F.ex[par] if par is not None else None
+            if pn is not None and pn['k'] == 'assign' and pn['op'] == '=':
+                l = F.ex[F.strip_casts(pn['c'][0])]
+                if l['k'] == 'ref':
+                    rv = l['decl'].get('id')
+            elif pn is not None and pn['k'] == 'decl':
+                for v in pn['vars']:
+                    if v.get('init') is not None and F.strip_casts(v['init']) == c:
+                        rv = v['id']
+            def stays(code):
+                """with the fetch result equal to `code`: can control come back to the fetch without leaving the loop?
+                conditions on the result alone are decided for the code, every other condition goes both ways"""
+                start = F.pos[c][0]
+                seen, st = set(), [(start, True)]
+                while st:
+                    x, first = st.pop()
+                    if x == start and not first:
+                        return True
+                    if x is None or (x in seen and not first):
+                        continue
+                    seen.add(x)
+                    if x not in body:
+                        continue
+                    blk = F.blocks[x]
+                    # "end of stream" mapping: the position is set to the total length, which ends a loop that runs while the
+                    # position is short of a target inside the stream (the seek's discard loop; its guard is R08.8's business)
+                    if not first and any(F.ex[e_]['k'] == 'assign' and any(F.ex[q_]['k'] == 'call' and F.ex[q_]['callee'].get('d') == 'ov_pcm_total'
+                                                                          for q_ in F.walk(F.ex[e_]['c'][1])) for e_ in blk['elems']):
+                        continue
+                    t = blk.get('term') or {}
+                    cond = t.get('cond')
+                    succs = list(blk['succs'])
+                    if cond is not None and len(succs) == 2:
+                        val = None
+                        names = set()
+                        for q in F.walk(cond):
+                            qn = F.ex[q]
+                            if qn['k'] == 'ref' and qn['decl'].get('kind') in ('var', 'param'):
+                                names.add(qn['decl'].get('id'))
+                            elif qn['k'] in ('member', 'call', 'sub'):
+                                if not (qn['k'] == 'call' and q == c):
+                                    names.add('other')
+                        cn_ = F.ex[F.strip_casts(cond)]
+                        if cn_['k'] == 'bin' and cn_['op'] in ('<', '<=', '>', '>=', '==', '!=') and F.strip_casts(cn_['c'][0]) == c \
+                                and common.const_val(F, cn_['c'][1]) is not None:
+                            import operator as _op
+                            val = {'<': _op.lt, '<=': _op.le, '>': _op.gt, '>=': _op.ge, '==': _op.eq, '!=': _op.ne}[cn_['op']](
+                                code, common.const_val(F, cn_['c'][1]))
+                        elif names and names <= {rv} or (not names and any(q == c for q in F.walk(cond))):
+                            try:
+                                val = common.consteval(P, F, F.strip_casts(cond), {'$r': code},
+                                                       lambda F_, e_: '$r' if (F_.ex[e_]['k'] == 'ref' and F_.ex[e_]['decl'].get('id') == rv) or e_ == c else F_.s(e_))
+                            except common.NotConst:
+                                val = None
+                        if val is not None:
+                            succs = [succs[0] if val else succs[1]]
+                    for s_ in succs:
+                        st.append((s_, False))
+                return False
+            consts = []
+            for i, p_ in enumerate(G.params):
+                if i < len(F.ex[c]['c']) and absint.int_type_range(p_['t']):
+                    consts.append((i, common.const_val(F, F.ex[c]['c'][i])))
+            consts = tuple(consts)
+            codes = set()
+            unknown = False
+            fent = {e_ for e_ in ent.get(P.key(F), set())}
+            states = sorted({en for (_gi, en) in fent if en[0] >= k5.OPENED}) or [(rs, rs == 4, rs == 4, False) for rs in (2, 3, 4)]
+            for en in states:
+                # the handle is at least STREAMSET/INITSET-consistent inside the loop; take every state the function is entered with
+                sm = K.summary(gk, {0: en}, consts)
+                if sm is None:
+                    unknown = True
+                    continue
+                for (cls, lo, hi, ex) in sm:
+                    if hi < 0:
+                        if hi - lo > 64:
+                            unknown = True
+                        else:
+                            codes |= set(range(lo, hi + 1))
+                    elif lo < 0:
+                        unknown = True
+            bad = set()
+            for code in sorted(codes):
+                if code == OV_HOLE or code == OV_EFAULT:
+                    continue
+                if stays(code):
+                    bad.add(code)
+            if unknown and stays(-1) and stays(-128):
+                bad.add('unknown')
+            n += 1
+            chk.ob('R12.10', F.name, f'fetch-loop-leaves-on-every-failure@{F.loc(c)}', not bad, F.where(c),
+                   f'negative outcomes {sorted(codes)}: every one ends the loop except OV_HOLE (progress) and OV_EFAULT (assumed)' if not bad else
+                   f'the fetch can return {sorted(bad, key=str)} here and the loop neither exits nor returns on it: a persisting failure '
+                   'under that code makes the call spin for ever')
+    if n:
+        chk.assumed('R12.10', '_fetch_and_process_packet', 'OV_EFAULT-is-not-an-io-outcome', 'lib/vorbisfile.c',
+                    'OV_EFAULT (-129) marks an internal logic fault (samples left undelivered before the next packet is decoded); the '
+                    'loops call the fetch only after draining the decoder')
+    return n
+
+
 def run(chk, P):
     r12_8(chk, P)
     chk.floor('R12.8', 1)
@@ -449,6 +590,8 @@ def run(chk, P):
     from rules import c03
     c03.r03_2(common.Proxy(chk, 'R12.9'), P)
     chk.floor('R12.9', 1)
+    r12_10(chk, P)
+    chk.floor('R12.10', 3)
     E, C = io_sets(P)
     chk.notes.append(f'I/O-capable functions: {len(E)}; of those error-carrying: {len(C)}; not error-carrying: {sorted(E - C)}')
     r12_1(chk, P, E, C)
